@@ -66,8 +66,8 @@ PART = " Theorem coverage is PARTIAL (see the *_partial theorems and the header 
 CLAIMS.update({
     "C01": ("proof", "Specification: Spec/Value.v + Spec/Message.v (reference reading of the pinned layout tables, extracted and used as the oracle). PROVED IN FULL for the model (C01_every_root, C01_full_statement_holds): for EVERY root - any structure-type descriptor (primitives, structures, both TPM2B kinds, unions, counted lists, opaque first parameter), COMMANDS (areas picked by the command code, size-governed session area iff the tag says so, opaque first parameter iff a session asks for decryption), RESPONSES with command code and encryption flag (header-only failed responses, parameterSize region, sessions to the end, flag consistent with the sessions) and STREAMS of such messages (below the model's loop bound of 2^64 bytes) - all inputs, all tables passing msg_tables_ok (the regenerated tables pass by computation): if the specification reads the whole input as value(s) with valid leaves, strict decoding emits exactly the specified events (path, declared type, value, wire order, one byte of look-ahead) and accepts - by a simulation between the constraint-tracking coroutine decoder model and the specification (Proofs/Sim1-11.v), also stated with the specification at the pinned and the decoder at the regenerated tables (C20_pinned). The tie to /repo: the model/implementation correspondence and the oracle comparing the implementation with the extracted spec_events on table-directed well-formed encodings of every type, union arm, command code (0-3 sessions, empty session area, encrypted first parameter, failed responses), generated streams and the corpus (differential testing, not proof).",
             "Coq specification + simulation proof (all roots) ; extracted specification as oracle ; model/implementation correspondence", "4 C01"),
-    "C03": ("proof", "PROVED (composition, every structure type passing the table checks - all decodable and area types of the regenerated tables do -, all byte strings): strict decoding ACCEPTS an input if and only if the specification reads the whole input as a value of the type with valid leaves, and the specification takes every size-prefixed region to be exactly as long as its size field says - so acceptance implies that every TPM2B size equals the byte length of the region it governs, and the emitted events are the specified ones (Proofs/Comp1-3.v: a completed strict run can be restricted to the bytes it consumed, has charged every live region exactly the bytes read and closed the regions it opened exactly filled; the specification's reading is rebuilt from it by induction on the type). Proved at operation level for all states: Exceeded is raised for the outermost listed live region the field would cross, names that region (path, limit, counted bytes), the offending field and the excess, after skipping exactly the rest of the region; Anticipated is raised for a live enclosing region when a size is read that cannot fit; a region closes normally only when exactly filled, else Subceeded names it. NOT yet proved: the accepted => exact direction for commandSize / responseSize / authSize / parameterSize (Command / Response / stream roots; the other direction is C01), and that nothing is decidable earlier. Oracle: accepted => the extracted specification parses the input with exact sizes; the arithmetic of every size error recomputed from the emitted events; correspondence on every size field perturbed." + PART % "C03",
-            "Coq proof (completeness by inversion of completed runs + restriction to consumed bytes; operation-level error anatomy) + region-arithmetic oracle + correspondence on fault-enumerated inputs", "4 C03"),
+    "C03": ("proof", "PROVED (composition, all byte strings): for every structure type passing the table checks (all decodable and area types of the regenerated tables do), for the Command root and for the Response root, strict decoding ACCEPTS an input if and only if the specification reads the whole input as a value / message with valid leaves, and the specification takes every size-governed region to be exactly as long as its size field says - so acceptance implies that every TPM2B size, commandSize, responseSize, authSize and parameterSize equals the byte length of the region it governs, and the emitted events are the specified ones (Proofs/Comp1-5.v: a completed strict run can be restricted to the bytes it consumed, has charged every live region exactly the bytes read and closed the regions it opened exactly filled; the specification's reading is rebuilt from it by induction on the type, then field by field through the message; the session list and the response's parameter area are re-run on exactly their regions). For a response the caller's encryption flag must be consistent (set only if there is a session area: the decoder checks it only against sessions it finds). Proved at operation level for all states: Exceeded is raised for the outermost listed live region the field would cross, names that region (path, limit, counted bytes), the offending field and the excess, after skipping exactly the rest of the region; Anticipated is raised for a live enclosing region when a size is read that cannot fit; a region closes normally only when exactly filled, else Subceeded names it. NOT proved: the accepted => exact direction for the stream root (message by message it is the Command / Response theorems; the flag-consistency premise would have to be carried through every pair), and that nothing is decidable earlier. Oracle: accepted => the extracted specification parses the input with exact sizes; the arithmetic of every size error recomputed from the emitted events; correspondence on every size field perturbed." + PART % "C03",
+            "Coq proof (completeness by inversion of completed runs + restriction to consumed bytes, structure types and Command / Response messages; operation-level error anatomy) + region-arithmetic oracle + correspondence on fault-enumerated inputs", "4 C03"),
     "C04": ("proof", "PROVED for EVERY root (structure types, commands, responses, streams of whole messages below the model's loop bound; all inputs; tables passing msg_tables_ok, which the regenerated ones do): a structurally consistent input is rejected by strict decoding if and only if some leaf of the field-by-field reading is out of range (valid <-> membership in the declared set, C16); the error names the FIRST such leaf in wire order (path, declared type, integer), exactly the events of all earlier fields and none for the offending one have been emitted, exactly the bytes after that field remain (Proofs/Sim6-13.v: warn-mode simulation + strict/warn agreement + strict mode never warns); the field-level anatomy for all states. NOT proved: reserved / unknown command codes (they make the input structurally inconsistent for the specification, so the theorems do not speak about them): decided by the oracle (implementation vs extracted spec_value_error at the pinned tables on every constrained leaf of generated messages, command codes included) and the correspondence." + PART % "C04",
             "Coq proof (simulation + strict/warn agreement; all roots) + extracted specification as oracle + correspondence", "4 C04"),
     "C05": ("proof", "Proved for all inputs/roots/tables: Depleted <=> the decoder is suspended asking for a byte with the whole input handed over and nothing left; Superfluous carries exactly the non-empty unread rest (input = consumed ++ rest); a suspended decoder has used its input up (both modes). With C10_prefix_stable the events before a depleted error are a prefix of the full decode's events. That they are exactly the complete fields needs C01 (partial). Oracle: every/boundary cut points and suffixes of generated messages and streams, command code carried, clean stream ends only at message boundaries." + PART % "C05",
